@@ -20,7 +20,8 @@ EXPLANATION = (
     'R3 along the def-use chains of got and want the same steps are applied to both sides, except blank-line marker removal (want only); '
     'R4 facts of the parsed regexes: the trailing-whitespace class contains space and tab and is anchored at line ends, the string-prefix '
     'patterns keep their (non-word | start) boundary guard and their replacement keeps groups 1 and 2, the ANSI pattern starts with the CSI introducer. '
-    'The relation on concrete strings and its monotonicity in the flags are not decided.')
+    'The relation on concrete strings and its monotonicity in the flags are not decided.'
+    ' R4c REGEX-FACT on the folded strip_ansi pattern (7 sample texts). R11 CONFIG-FLOW: every call of a checker function that takes `runstate` from a caller that holds one passes it on (never None / a fresh state). R12 ROLE-AGREE: an argument named after one side is never bound to the parameter of the other side at a checker call.')
 DECIDES = ['MUST-PASS equality shortcut', 'GUARD-DOM flag->step table', 'got/want sibling SYMMETRY', 'step ORDER (partial order the relation depends on)', 'REGEX-FACTs']
 NOT_DECIDED = ['the relation on concrete (got, want) strings', 'monotonicity in the leniency flags', 'exactness up to trailing whitespace with all leniencies off']
 
